@@ -83,6 +83,27 @@ def resugar(e):
             return {"k": "while", "c": iff["c"], "body": iff["t"], "ln": e.get("ln"), "ty": "()"}
         except (KeyError, IndexError):
             return e
+    if k == "loop" and e.get("src") != "While":
+        # loop { if C { return V; } REST }   ==   while !C { REST }  return V      (no break/continue anywhere in the body)
+        try:
+            b = e["b"]
+            first = b["stmts"][0]
+            iff = first["e"] if first["k"] in ("expr", "semi") else None
+            if iff and iff.get("k") == "if" and "e" not in iff and iff["c"].get("k") != "letx" and not any(x.get("k") in ("break", "continue") for x in walk(b)):
+                t = iff["t"]
+                leave = None
+                if t.get("k") == "block" and len(t["stmts"]) == 1 and "e" not in t and t["stmts"][0]["k"] in ("expr", "semi") and t["stmts"][0]["e"].get("k") == "ret":
+                    leave = t["stmts"][0]["e"]
+                elif t.get("k") == "block" and not t["stmts"] and t.get("e", {}).get("k") == "ret":
+                    leave = t["e"]
+                if leave is not None:
+                    rest = {"k": "block", "stmts": b["stmts"][1:], "ln": b.get("ln"), "ty": "()"}
+                    if "e" in b:
+                        rest["stmts"] = rest["stmts"] + [{"k": "semi", "e": b["e"]}]
+                    wh = {"k": "while", "c": {"k": "un", "op": "Not", "e": iff["c"], "ty": "bool", "ln": iff.get("ln")}, "body": rest, "ln": e.get("ln"), "ty": "()"}
+                    return {"k": "block", "stmts": [{"k": "semi", "e": wh}], "e": leave, "ln": e.get("ln"), "ty": e.get("ty")}
+        except (KeyError, IndexError, TypeError):
+            pass
     mac = e.get("mac")
     if mac:
         if "vec" in mac and k in ("call", "mcall"):
